@@ -120,8 +120,14 @@ func TrueAlignment(r *fw.Rng, ref string, a, b int, pr SamProfile) []Col {
 		x := r.Float()
 		if !pr.NoInsertions && x < pr.PIns {
 			n := r.Range(1, pr.MaxIndel)
+			masked := r.Chance(0.2)
 			for i := 0; i < n; i++ {
-				cols = append(cols, Col{'I', p, Bases[r.Intn(4)]})
+				b := Bases[r.Intn(4)]
+				if masked && r.Chance(0.5) {
+					// an inserted base that was not called: still a base of the query
+					b = "NNNRYKM"[r.Intn(7)]
+				}
+				cols = append(cols, Col{'I', p, b})
 			}
 			if r.Chance(0.2) {
 				continue // lets a deletion or skip follow the insertion directly
